@@ -80,6 +80,8 @@ func isZeroConst(v ssa.Value) bool {
 }
 
 func runC03(c *core.Ctx) {
+	c.Rule("R13.2", "reader save protocol (shared with C13): the message checkpoint is one of the layers")
+	ruleSaveProtocol(c)
 	for id, d := range map[string]string{
 		"R03.1": "save/restore field symmetry (type level and per implementation)",
 		"R03.2": "checkpoint literal completeness at Save sites",
